@@ -13,10 +13,15 @@
 //! Ops handled here (all other lines: see `app/verif.rs`; they are run on A and on B):
 //!   ins <txid>...            CheckTx of each tx against A's latest committed snapshot
 //!                            -> `ins <id> pending|parked|already|failedchecks|err:<e>|removed|unknown`
-//!   prepare max=<i64>        `prepare_proposal` on A at height committed+1
+//!   prepare max=<i64> [votes=0|1]
+//!                            `prepare_proposal` on A at height committed+1; with `votes=1` the local
+//!                            last commit carries a signed Commit vote (empty vote extension) of
+//!                            every validator in A's state (and `process` / `mut` / `finalize` hand
+//!                            the matching `proposed_last_commit` to `process_proposal`), otherwise
+//!                            it has no votes
 //!                            -> `queue <ids>` (A's builder queue before the call) and
-//!                               `prepare ok height= max= ids= bytes= nitems= itembytes= itemlens= codes= dry= removed= left=`
-//!                               or `prepare err=<class>`
+//!                               `prepare ok height= max= [votes=] ids= bytes= nitems= itembytes= itemlens= codes= dry= removed= left=`
+//!                               or `prepare err=<class> height= max= [votes=]`
 //!   process                  `process_proposal` on B for A's last response
 //!                            -> `process accept|reject=<class> noncons=<ids>`
 //!   mut <kind> <args>        `process_proposal` on B for a mutation of A's last response
@@ -49,7 +54,10 @@ use astria_core::{
 };
 use bytes::Bytes;
 use cnidarium::StateRead as _;
-use futures::FutureExt as _;
+use futures::{
+    FutureExt as _,
+    StreamExt as _,
+};
 use prost::Message as _;
 use sha2::{
     Digest as _,
@@ -59,16 +67,22 @@ use tendermint::{
     abci::{
         self,
         types::{
+            BlockSignatureInfo,
             CommitInfo,
             ExtendedCommitInfo,
+            ExtendedVoteInfo,
+            Validator,
+            VoteInfo,
         },
     },
     block::{
+        BlockIdFlag,
         Height,
         Round,
     },
     Hash,
 };
+use tendermint_proto::v0_38::types::CanonicalVoteExtension;
 
 use super::{
     verif::{
@@ -81,12 +95,15 @@ use super::{
         Chain,
         Harness,
         KeyValues,
+        Names,
         PResult,
     },
     ExecutedTransaction,
     EXECUTED_TXS_KEY,
 };
 use crate::{
+    app::StateReadExt as _,
+    authority::StateReadExt as _,
     checked_transaction::CheckedTransaction,
     mempool::TransactionStatus,
     proposal::commitment::generate_rollup_datas_commitment,
@@ -105,6 +122,62 @@ struct Honest {
     txs: Vec<Bytes>,
     /// Verdict of B on the unmodified proposal, once `process` ran.
     accepted: Option<bool>,
+    /// The `proposed_last_commit` matching the local last commit A prepared with.
+    last_commit: CommitInfo,
+}
+
+/// A Commit vote with an empty vote extension, signed for the vote-extension round of block
+/// `height - 1`, of every validator stored in `state` (sorted by address).
+async fn signed_votes<S: cnidarium::StateRead>(
+    names: &Names,
+    state: &S,
+    height: u64,
+) -> PResult<Vec<ExtendedVoteInfo>> {
+    let chain_id = state
+        .get_chain_id()
+        .await
+        .map_err(|error| report_chain(&error))?;
+    let mut validators: Vec<(usize, u32)> = Vec::new();
+    {
+        let mut stream = std::pin::pin!(state.get_validators());
+        while let Some(update) = stream.next().await {
+            let update = update.map_err(|error| report_chain(&error))?;
+            let index = *names
+                .by_verification_key
+                .get(update.verification_key.as_bytes())
+                .ok_or("validator without a known signing key")?;
+            validators.push((index, update.power));
+        }
+    }
+    validators.sort_by_key(|(index, _)| names.keys[*index].address_bytes());
+    let message = CanonicalVoteExtension {
+        extension: vec![],
+        height: i64::try_from(height.saturating_sub(1)).map_err(|_| "height out of range")?,
+        round: 0,
+        chain_id: chain_id.to_string(),
+    }
+    .encode_length_delimited_to_vec();
+    Ok(validators
+        .into_iter()
+        .map(|(index, power)| {
+            let key = &names.keys[index];
+            ExtendedVoteInfo {
+                validator: Validator {
+                    address: key.address_bytes(),
+                    power: power.into(),
+                },
+                sig_info: BlockSignatureInfo::Flag(BlockIdFlag::Commit),
+                vote_extension: Bytes::new(),
+                extension_signature: Some(
+                    key.sign(&message)
+                        .to_bytes()
+                        .to_vec()
+                        .try_into()
+                        .expect("an ed25519 signature has 64 bytes"),
+                ),
+            }
+        })
+        .collect())
 }
 
 struct Ctx {
@@ -315,11 +388,37 @@ impl Ctx {
     async fn op_prepare(&mut self, args: &[&str]) -> PResult<()> {
         let kv = KeyValues::parse("prepare", args)?;
         let max_tx_bytes: i64 = kv.num("max")?;
+        let with_votes = match kv.opt("votes") {
+            None => None,
+            Some("0") => Some(false),
+            Some("1") => Some(true),
+            Some(other) => return Err(format!("bad votes `{other}`")),
+        };
+        let votes_word = match with_votes {
+            None => String::new(),
+            Some(flag) => format!(" votes={}", u8::from(flag)),
+        };
         self.honest = None;
         let proposer = Chain::proposer(&self.a.names);
+        let names = &self.a.names;
         let chain = self.a.chain.as_mut().ok_or("no chain")?;
         chain.reset_round();
         let height = chain.stored_height().await + 1;
+        let votes: Vec<ExtendedVoteInfo> = if with_votes == Some(true) {
+            signed_votes(names, chain.app.state(), height).await?
+        } else {
+            vec![]
+        };
+        let last_commit = CommitInfo {
+            votes: votes
+                .iter()
+                .map(|vote| VoteInfo {
+                    validator: vote.validator.clone(),
+                    sig_info: vote.sig_info,
+                })
+                .collect(),
+            round: Round::default(),
+        };
         let mempool = chain.app.mempool.clone();
         let queue: Vec<Arc<CheckedTransaction>> = mempool.builder_queue().await;
         let queue_ids: Vec<TransactionId> = queue.iter().map(|tx| *tx.id()).collect();
@@ -337,7 +436,7 @@ impl Ctx {
             max_tx_bytes,
             txs: vec![],
             local_last_commit: Some(ExtendedCommitInfo {
-                votes: vec![],
+                votes,
                 round: Round::default(),
             }),
             misbehavior: vec![],
@@ -360,7 +459,9 @@ impl Ctx {
                 let class = prepare_error_class(&text);
                 chain.reset_round();
                 self.emit(format!("queue {}", join(&queue_labels)));
-                self.emit(format!("prepare err={class} height={height} max={max_tx_bytes}"));
+                self.emit(format!(
+                    "prepare err={class} height={height} max={max_tx_bytes}{votes_word}"
+                ));
                 return Ok(());
             }
         };
@@ -430,7 +531,7 @@ impl Ctx {
         let ids = self.labels(&txs);
         self.emit(format!("queue {}", join(&queue_labels)));
         self.emit(format!(
-            "prepare ok height={height} max={max_tx_bytes} ids={} bytes={bytes_total} \
+            "prepare ok height={height} max={max_tx_bytes}{votes_word} ids={} bytes={bytes_total} \
              nitems={injected} itembytes={item_bytes} itemlens={} codes={} dry={} removed={} left={left}{}",
             join(&ids),
             join(&item_lens),
@@ -444,6 +545,7 @@ impl Ctx {
             items,
             txs,
             accepted: None,
+            last_commit,
         });
         Ok(())
     }
@@ -467,6 +569,13 @@ impl Ctx {
                 }
             }
         }
+        let last_commit = self.honest.as_ref().map_or_else(
+            || CommitInfo {
+                votes: vec![],
+                round: Round::default(),
+            },
+            |honest| honest.last_commit.clone(),
+        );
         let chain = self.b.chain.as_mut().ok_or("no chain")?;
         let data: Vec<Bytes> = items.iter().chain(txs.iter()).cloned().collect();
         let request = abci::request::ProcessProposal {
@@ -476,10 +585,7 @@ impl Ctx {
             next_validators_hash: Hash::default(),
             proposer_address: proposer,
             txs: data,
-            proposed_last_commit: Some(CommitInfo {
-                votes: vec![],
-                round: Round::default(),
-            }),
+            proposed_last_commit: Some(last_commit),
             misbehavior: vec![],
         };
         let result = AssertUnwindSafe(chain.app.process_proposal(request, chain.storage.clone()))
@@ -747,10 +853,7 @@ impl Ctx {
                 next_validators_hash: Hash::default(),
                 proposer_address: proposer,
                 txs: data.clone(),
-                proposed_last_commit: Some(CommitInfo {
-                    votes: vec![],
-                    round: Round::default(),
-                }),
+                proposed_last_commit: Some(honest.last_commit.clone()),
                 misbehavior: vec![],
             };
             own = match chain
